@@ -260,9 +260,9 @@ func c06ParamSets(tier string) (ps []c06Params, d int) {
 			{Servers: 1, Files: []int{2}, CatLimit: 2, Faulty: "emptygz"},
 			{Servers: 1, Files: []int{1, 1}, CatLimit: 1, Glob: true, Faulty: "badgz"},
 			{Servers: 1, Files: []int{1}, CatLimit: 2, Faulty: "cutgz"},
+			{Servers: 1, Files: []int{2}, CatLimit: 2, Interval: 1, ReadDelayMs: 500, D: 2, Long: true},
 			{Servers: 1, Files: []int{2}, CatLimit: 2, D: 2},
 			{Servers: 1, Files: []int{1, 1}, CatLimit: 1, Glob: true, D: 2},
-			{Servers: 1, Files: []int{2}, CatLimit: 2, Interval: 1, ReadDelayMs: 500, D: 2, Long: true},
 		}, 1
 	}
 	for _, srv := range []int{1, 2, 3} {
@@ -291,12 +291,13 @@ func init() {
 		Level: "model_checking",
 		Rule: "stateless exploration of all schedules within a deviation bound (quick 1, thorough 2) of a complete dmap run: the real MaprClient (cumulative, outfile), one in-process server per entry of the server list (Serverless connector, " +
 			"ServerHandler, map command, read commands behind the cat limiter, server Aggregate), the per-server client MaprHandlers, the GlobalGroupSet and the periodic reporter; 1-3 servers x 1-3 files x 0-2 lines, cat limit 1-2, one glob or one command per file; " +
-			"oracle: final count and sum per key == totals over all files of all servers, exit status 0, termination before the horizon; distinct = distinct (scenario, result) pairs",
+			"oracle: final count and sum per key == totals over all files of all servers, exit status 0, termination before the horizon; plus the client side alone (two servers' handlers, periodic reporter, final report) under all schedules within 2 deviations: every partial result counted exactly once in the final result; distinct = distinct (scenario, result) pairs",
 		Assumptions: []string{
 			"code between two synchronisation operations is atomic (data-race freedom; checked by the free-running -race pass)",
 			"virtual time advances only when no goroutine is runnable",
 			"no preemption alternatives at mutex and wait-group operations",
 		},
+		QuickBudget: 240 * time.Second,
 		Scenarios: func(tier string) (out []*explore.Scenario) {
 			ps, _ := c06ParamSets(tier)
 			for i, p := range ps {
@@ -305,6 +306,8 @@ func init() {
 			return
 		},
 		Run: func(c *Ctx) {
+			// the client side alone (handlers of two servers, periodic reporter, final report), 2 deviations
+			c05Reporting(c)
 			ps, d := c06ParamSets(c.Tier)
 			for i, p := range ps {
 				if c.Expired() {
